@@ -505,6 +505,76 @@ theorem cached_equals_original_real' (c : Cache) (req : Req) (es : List Ev)
   obtain ⟨h1, _, h3⟩ := cached_equals_original_real c req es rx u e hu hE hfree hrun hentry
   exact ⟨h1, h3⟩
 
+theorem bodyOf_append (xs ys : List Bytes) : bodyOf (xs ++ ys) = bodyOf ys ++ bodyOf xs := by
+  induction xs with
+  | nil => simp [bodyOf]
+  | cons x xs ih => simp [bodyOf, ih]
+
+theorem bodyOf_reverse (xs : List Bytes) : bodyOf xs.reverse = xs.flatten := by
+  induction xs with
+  | nil => rfl
+  | cons x xs ih => simp [bodyOf_append, bodyOf, ih]
+
+/-- **download_is_cached_real** — the other direction of `cache_inv` for the real parser, under
+    EVERY chunking: a response whose body `SymbolFile::from_bytes` accepts (all lines shorter than
+    80 KiB, ending in a line feed), delivered completely in ANY chunks to a call that found nothing
+    locally, with no i/o failure and a free name, ends as `downloaded` and leaves exactly
+    `body ++ "INFO URL " ++ url ++ "\n"` at the cache path. (So `GoodEntry` is inhabited for every
+    such response and chunking; uses the completeness of the stream parse, `Real.stream_complete`.) -/
+theorem download_is_cached_real (c : Cache) (req : Req) (u : Url) (rest : List Url) (chunks : List Bytes)
+    (t : Sym.SymbolFile) (hurls : req.urls = u :: rest) (hlocal : req.localHit = none)
+    (hfree : c req.path = none) (hshort : Real.shortLines chunks.flatten) (hnl : EndsNl chunks.flatten)
+    (hparse : Real.parse chunks.flatten = some t) :
+    runTask (P := Real.model) c req .start
+      ([.lookup, .status 200 true] ++ (chunks.map fun b => Ev.chunk b true) ++ [.eof ⟨true, true, true, true⟩]) =
+    (c.set req.path (some (.file (chunks.flatten ++ trailer u))), .done (.downloaded chunks.reverse u)) := by
+  have hbody : bodyOf chunks.reverse = chunks.flatten := bodyOf_reverse chunks
+  have hs : Real.model.stream chunks.reverse = some (bodyOf chunks.reverse, t) :=
+    Real.stream_complete chunks.reverse t (hbody ▸ hshort) (hbody ▸ hparse)
+  -- the state after the chunks, and the end of the response
+  obtain ⟨s1, cb1, fin, hr, hfin, hcb⟩ : ∃ s1 cb1 fin, Real.model.runRev chunks.reverse = some (s1, cb1) ∧
+      Real.model.finish s1 = some (fin, t) ∧ cb1 ++ fin = chunks.flatten := by
+    unfold ParserModel.stream at hs
+    cases hr : Real.model.runRev chunks.reverse with
+    | none => rw [hr] at hs; simp at hs
+    | some r =>
+      obtain ⟨s1, cb1⟩ := r
+      rw [hr] at hs
+      dsimp only at hs
+      cases hf : Real.model.finish s1 with
+      | none => rw [hf] at hs; simp at hs
+      | some r2 =>
+        obtain ⟨fin, t'⟩ := r2
+        rw [hf] at hs
+        have hp : (cb1 ++ fin, t') = (bodyOf chunks.reverse, t) := Option.some.inj hs
+        have h1 : cb1 ++ fin = bodyOf chunks.reverse := (Prod.mk.inj hp).1
+        have h2 : t' = t := (Prod.mk.inj hp).2
+        refine ⟨s1, cb1, fin, rfl, ?_, ?_⟩
+        · exact h2 ▸ hf
+        · rw [h1, hbody]
+  have e1 : step (P := Real.model) c req .start .lookup = (c, .awaitStatus u rest) := by
+    simp [step, lookupLocal, hlocal, hfree, hurls, nextUrl]
+  have e2 : step (P := Real.model) c req (.awaitStatus u rest) (.status 200 true) =
+      (c, .streaming u rest (some []) false Real.model.init []) := rfl
+  have e3 := runTask_chunks (P := Real.model) c req u rest chunks [] Real.model.init [] s1 cb1 rfl
+    (by simpa using hr)
+  have hnl' : updNl (updNl false cb1) fin = true := by
+    rw [updNl_append, hcb]
+    obtain ⟨pre, hpre⟩ := hnl
+    rw [hpre]
+    simp [updNl]
+  have e4 : step (P := Real.model) c req (.streaming u rest (some cb1) (updNl false cb1) s1 (chunks.reverse ++ []))
+      (.eof ⟨true, true, true, true⟩) =
+      (commit c req.path u chunks.flatten ⟨true, true, true, true⟩, .done (.downloaded (chunks.reverse ++ []) u)) :=
+    step_eof_commit hfin (by simp [tee, hcb]) hnl'
+  rw [runTask_append, runTask_append]
+  simp only [runTask, e1, e2]
+  have e3' : runTask (P := Real.model) c req (.streaming u rest (some []) false Real.model.init [])
+      (chunks.map fun b => Ev.chunk b true) =
+      (c, .streaming u rest (some cb1) (updNl false cb1) s1 (chunks.reverse ++ [])) := e3
+  rw [e3', e4]
+  simp [commit, hfree]
+
 /-- a sufficient condition for the hypothesis: an entry shorter than 80 KiB has short lines -/
 theorem shortLines_of_length (e : Bytes) (h : e.length < 81920) : Real.shortLines e := by
   intro a seg b he _
